@@ -1011,3 +1011,25 @@ theorem registerPrev_spec {m : Map V} (h : WF m) (c : List Nat) (hc : c ≠ []) 
           rw [j4 t w]
           simp only [List.cons_append]
           rw [mem_abs_cons h k, hg]
+
+/-! ## `KeyMapHandler` -/
+
+/-- `KeyMapHandler::register` folded over a list of registrations -/
+def Handler.registerAll (h : Handler V) (hist : List (List Nat × V)) : Handler V :=
+  hist.foldl (fun h cv => h.register cv.1 cv.2) h
+
+theorem Handler.registerAll_eq (h : Handler V) (hist : List (List Nat × V)) :
+    Handler.registerAll h hist = ⟨SurfProofs.C18.registerAll h.keymap hist, h.state⟩ := by
+  induction hist generalizing h with
+  | nil => rfl
+  | cons e t ih =>
+    have : Handler.registerAll h (e :: t) = Handler.registerAll (h.register e.1 e.2) t := rfl
+    rw [this, ih]
+    rfl
+
+theorem Handler.feed_eq (h : Handler V) (ks : List Nat) :
+    Handler.feed h ks = (⟨h.keymap, (feed h.keymap h.state ks).1⟩, (feed h.keymap h.state ks).2) := by
+  induction ks generalizing h with
+  | nil => rfl
+  | cons k t ih =>
+    simp only [Handler.feed, Handler.handle, ih, feed_cons]
